@@ -238,6 +238,11 @@ def main(prop, title, rules, level, explanation, assumptions, trusted_base=None,
         "functions_analysed": sorted(functions),
         "n_functions_analysed": len(functions),
         "configurations": [{"config": m["config"], "cfg": m["cfg"], "fn_bodies": m["n_fn_bodies"], "tree_hash": m["tree_hash"][:16], "driver_s": m["driver_s"], "cached": m["cached"]} for m in metas],
+        # what was rewritten on the facts before the rules read them (nothing on the reference tree): rules/inline.py, expand.py,
+        # pipeline.py, unroll.py
+        "normalisations": [{"config": m["config"], "helpers_expanded": m.get("helpers_expanded", []), "renamed_anchors": m.get("renamed_anchors", []),
+                            "renamed_fields": m.get("renamed_fields", []), "loops_unrolled": m.get("loops_unrolled", []),
+                            "combinators_expanded": m.get("combinators_expanded", []), "pipelines_lowered": m.get("pipelines_lowered", [])} for m in metas],
         "notes": [i.to_json() for i in insts if i.note],
         "known_findings_matched": [i.key for i in listed],
         "known_findings_stale": stale,
